@@ -460,10 +460,104 @@ func genTryRegression(r *hx.Rand, c *Case, st stats, hold bool) map[string]bool 
 	return b.caseSt
 }
 
+// ---- c16s: steered try blocks --------------------------------------------------------------
+
+// The steered family is a deterministic enumeration (the PRNG only varies lengths, gate positions
+// and the place of a failing command):
+//
+//	nesting (flat | the steered try inside the body of an outer try | inside the finally handler of an outer try)
+//	x body of the steered try (ok | failing)
+//	x finally handler (present | failing) x selected handler (present | failing) x the other handler (absent | present | failing)
+//	x which handler is held and for how long (s, S, f, F — see wire.go)
+//
+// = 3 * 2 * 12 * 4 = 288 combinations; only combinations in which a handler is actually held are
+// enumerated (finally and the selected handler both defined).  One top-level task, no failing
+// sibling: before the handlers run there is no cause of failure in the owner's context, so a `stall`
+// in these cases has no excuse.
+const nSteerCombos = 3 * 2 * 12 * 4
+
+var steerModes = [4]byte{'s', 'S', 'f', 'F'}
+
+func genC16Steered(r *hx.Rand, c *Case, st stats, combo int) map[string]bool {
+	b := &builder{r: r, c: c, st: st, caseSt: map[string]bool{}}
+	mode := steerModes[combo%4]
+	combo /= 4
+	fin := 1 + combo%2 // 1 present, 2 failing
+	combo /= 2
+	sel := 1 + combo%2
+	combo /= 2
+	other := combo % 3
+	combo /= 3
+	bodyFails := combo%2 == 1
+	combo /= 2
+	nest := combo % 3
+
+	c.Hold = false
+	c.Steer = map[int]byte{}
+	owner := b.newTask(RoleTop, 0, 0)
+	c.Top = []int{owner.ID}
+
+	// the steered try with the enumerated handlers, owned by command idx of p
+	steered := func(p *Task, idx int) *Try {
+		var hs [3]int // succ, fail, fin
+		hs[2] = fin
+		if bodyFails {
+			hs[1], hs[0] = sel, other
+		} else {
+			hs[0], hs[1] = sel, other
+		}
+		y, tb := b.newTry(p, idx, hs)
+		if bodyFails {
+			b.fillTryBody(tb, shapeFail0+b.r.Intn(3))
+		} else {
+			b.fillTryBody(tb, shapeOK)
+		}
+		c.Steer[y.K] = mode
+		return y
+	}
+	switch nest {
+	case 0:
+		y := steered(owner, 1)
+		owner.Body = []Cmd{{Kind: 'p'}, {Kind: 'y', Arg: y.K}, {Kind: 'p'}}
+		b.flag("steer_flat")
+	case 1:
+		// outer try with all three handlers (succeeding); the steered try sits in its body
+		outer, ob := b.newTry(owner, 1, [3]int{1, 1, 1})
+		c.Steer[outer.K] = mode
+		y := steered(ob, 1)
+		ob.Body = []Cmd{{Kind: 'p'}, {Kind: 'y', Arg: y.K}, {Kind: 'p'}}
+		owner.Body = []Cmd{{Kind: 'p'}, {Kind: 'y', Arg: outer.K}, {Kind: 'p'}}
+		b.flag("steer_in_body")
+	default:
+		// outer try whose FINALLY handler contains the steered try
+		outer, ob := b.newTry(owner, 1, [3]int{1, 1, 1})
+		c.Steer[outer.K] = mode
+		if b.r.Chance(1, 2) {
+			b.fillTryBody(ob, shapeOK)
+		} else {
+			b.fillTryBody(ob, shapeFail0+b.r.Intn(3))
+		}
+		of := c.Tasks[outer.Fin]
+		y := steered(of, 1)
+		of.Body = []Cmd{{Kind: 'p'}, {Kind: 'y', Arg: y.K}, {Kind: 'p'}}
+		owner.Body = []Cmd{{Kind: 'p'}, {Kind: 'y', Arg: outer.K}, {Kind: 'p'}}
+		b.flag("steer_in_finally")
+	}
+	st["steer_mode_"+string(mode)]++
+	if bodyFails {
+		st["steer_body_fails"]++
+	} else {
+		st["steer_body_ok"]++
+	}
+	st[fmt.Sprintf("steer_fin%d_sel%d_other%d", fin, sel, other)]++
+	b.flag("steered")
+	return b.caseSt
+}
+
 // ---- driver of the generators --------------------------------------------------------------
 
 func gen(w io.Writer, family string, n int) error {
-	if family != "c14" && family != "c16" {
+	if family != "c14" && family != "c16" && family != "c16s" {
 		return fmt.Errorf("unknown family %q", family)
 	}
 	seed := hx.SeedFromEnv()
@@ -475,6 +569,10 @@ func gen(w io.Writer, family string, n int) error {
 		c := &Case{ID: fmt.Sprintf("%s-%d-%d", family, seed, i), Seed: r.U64(), Hold: r.Chance(1, 2)}
 		var flags map[string]bool
 		switch {
+		case family == "c16s":
+			// every combination once per round, rounds differ in the random details
+			c.Hold = false
+			flags = genC16Steered(r, c, st, (comboStart+i)%nSteerCombos)
 		case family == "c14" && i%50 == 49:
 			genChain(c)
 			flags = map[string]bool{"deep_chain": true}
